@@ -687,7 +687,7 @@ func init() {
 	}
 	registerCheck("C06", "exploration", 120*time.Second, 20*time.Minute, func(r *Run) {
 		var jobs []any
-		entropies := []int{0, 32, 64}
+		entropies := []int{0, 16, 32, 64}
 		mints := 500
 		if !r.Quick() {
 			entropies = []int{0, 16, 32, 33, 64}
